@@ -36,18 +36,21 @@ func isConsensusClass(tx *common.VersionedTransaction) bool {
 
 type c21Mon struct {
 	cluster.BaseMonitor
-	r               *crun
-	target          int
-	interleave      int
-	mode            int // 0 none, 1 before marker write, 2 after marker write (+k), 3 right after snapshot write
-	k               int
-	pending         map[int]*common.Snapshot // node -> consensus snapshot durably written, marker may be outstanding
-	written         map[int]*common.Snapshot // node -> newest consensus snapshot durably written
-	armed           bool
-	crashed         bool
-	interleaved     int
-	consensusWrites int
-	checks          int
+	r                *crun
+	target           int
+	interleave       int
+	mode             int // 0 none, 1 before marker write, 2 after marker write (+k), 3 right after snapshot write
+	k                int
+	pending          map[int]*common.Snapshot // node -> consensus snapshot durably written, marker may be outstanding
+	written          map[int]*common.Snapshot // node -> newest consensus snapshot durably written
+	armed            bool
+	crashed          bool
+	interleaved      int
+	consensusWrites  int
+	checks           int
+	lastTypeMismatch bool
+	onlyType         uint8 // when set, only a consensus snapshot of this transaction type is cut
+	skipFirst        int   // number of matching snapshots to let pass before cutting
 }
 
 func (m *c21Mon) AfterStore(n *cluster.SNode, call *cluster.StoreCall) {
@@ -66,12 +69,22 @@ func (m *c21Mon) AfterStore(n *cluster.SNode, call *cluster.StoreCall) {
 			return
 		}
 		m.consensusWrites++
+		if n.Idx == m.target && m.onlyType != 0 && !m.crashed && !m.armed {
+			if tx.TransactionType() != m.onlyType {
+				m.lastTypeMismatch = true
+			} else if m.skipFirst > 0 {
+				m.skipFirst--
+				m.lastTypeMismatch = true
+			} else {
+				m.lastTypeMismatch = false
+			}
+		}
 		if cur := m.written[n.Idx]; cur == nil || cur.Timestamp < snap.Timestamp {
 			m.written[n.Idx] = snap.Snapshot
 		}
 		m.pending[n.Idx] = snap.Snapshot
 		c.Trace.Logf(c.Q.Now, "consensus snapshot written n%d %s", n.Idx, snap.PayloadHash().String()[:8])
-		if n.Idx == m.target && !m.crashed && m.mode == 3 {
+		if n.Idx == m.target && !m.crashed && m.mode == 3 && !m.lastTypeMismatch {
 			m.crashed = true
 			c.CrashNow(n, "enumerated.after_consensus_snapshot_write")
 		}
@@ -79,7 +92,7 @@ func (m *c21Mon) AfterStore(n *cluster.SNode, call *cluster.StoreCall) {
 		if call.Err == nil {
 			delete(m.pending, n.Idx)
 		}
-		if n.Idx == m.target && !m.crashed && m.mode == 2 {
+		if n.Idx == m.target && !m.crashed && m.mode == 2 && !m.lastTypeMismatch {
 			m.crashed = true
 			if m.k <= 0 {
 				c.CrashNow(n, "enumerated.after_marker_write")
@@ -93,7 +106,7 @@ func (m *c21Mon) BeforeStore(n *cluster.SNode, call *cluster.StoreCall) {
 	if call.Name != "WriteConsensusSnapshot" || n.Idx != m.target || m.armed || n.Node == nil || !n.Alive {
 		return // (start-up repair runs before the node object exists)
 	}
-	if m.pending[n.Idx] == nil {
+	if m.pending[n.Idx] == nil || m.lastTypeMismatch {
 		return // start-up repair or repeat, not the live window under test
 	}
 	m.armed = true
@@ -166,6 +179,9 @@ func c21Plan(rng *core.Rng) *harness.Plan {
 }
 
 func c21Gen(rng *core.Rng, tier string) *harness.Plan {
+	if rng.Chance(0.5) {
+		return c21MemPlan(rng.Uint64(), rng.IntN(len(c21Classes)), int64(1+rng.IntN(3)), int64(rng.IntN(6)), []int64{0, 0, 0, 130}[rng.IntN(4)])
+	}
 	p := c21Plan(rng)
 	p.Params["target"] = int64(rng.IntN(9))
 	p.Params["interleave"] = int64(rng.IntN(3))
@@ -203,10 +219,13 @@ func c21Enumerate(tier string, seed uint64) []*harness.Plan {
 			}
 		}
 	}
-	return out
+	return append(out, c21MemEnumerate(tier, seed)...)
 }
 
 func c21Exec(p *harness.Plan) *harness.Outcome {
+	if p.P("mem", 0) == 1 {
+		return c21MemExec(p)
+	}
 	r, err := newClusterRun("C21", p)
 	if err != nil {
 		o := harness.NewOutcome()
